@@ -206,6 +206,19 @@ def _point_harness_at_repo():
         open(mf, "w").write(new)
 
 
+def _big_stack():
+    """coqc evaluates generated literals and long snapshot lists recursively: lift the stack limit for the child"""
+    import resource
+    try:
+        resource.setrlimit(resource.RLIMIT_STACK, (resource.RLIM_INFINITY, resource.RLIM_INFINITY))
+    except (ValueError, OSError):
+        try:
+            soft, hard = resource.getrlimit(resource.RLIMIT_STACK)
+            resource.setrlimit(resource.RLIMIT_STACK, (hard, hard))
+        except (ValueError, OSError):
+            pass
+
+
 HARNESS_DEGRADED = None
 
 
@@ -396,7 +409,7 @@ def _parse_list(s):
 def _run_shard(args):
     path, timeout = args
     try:
-        p = subprocess.run(["coqc", "-q", "-noglob", "-Q", os.path.join(COQ, "theories"), "HT", path],
+        p = subprocess.run(["coqc", "-q", "-noglob", "-Q", os.path.join(COQ, "theories"), "HT", path], preexec_fn=_big_stack,
                            stdout=subprocess.PIPE, stderr=subprocess.STDOUT, text=True, timeout=timeout,
                            cwd=os.path.dirname(path))
     except subprocess.TimeoutExpired:
@@ -464,7 +477,7 @@ def coq_eval(exprs, workdir, tag="eval", timeout=300):
         for e in exprs:
             f.write("Eval vm_compute in (%s).\n" % e)
     try:
-        p = subprocess.run(["coqc", "-q", "-noglob", "-Q", os.path.join(COQ, "theories"), "HT", path],
+        p = subprocess.run(["coqc", "-q", "-noglob", "-Q", os.path.join(COQ, "theories"), "HT", path], preexec_fn=_big_stack,
                            stdout=subprocess.PIPE, stderr=subprocess.STDOUT, text=True, timeout=timeout,
                            cwd=workdir)
     except subprocess.TimeoutExpired:
